@@ -265,8 +265,8 @@ def spec_object(kind: str, name: str, how: str, user_spec=None):
 # ----------------------------------------------------------------------------------------------
 # construction
 # ----------------------------------------------------------------------------------------------
-VARIANTS = {"pit": ["tcn", "cnn2d", "flat", "tcn_foldbn"],
-            "mps": ["layer", "channel", "channel0", "seq"],
+VARIANTS = {"pit": ["tcn", "cnn2d", "flat", "tcn_foldbn", "cat", "cat2"],
+            "mps": ["layer", "channel", "channel0", "seq", "cat", "cat2"],
             "sn": ["std"]}
 
 
@@ -292,7 +292,7 @@ def build(kind: str, variant: str, init: Dict[str, Any], wseed: int):
             net = {"seq": MpsSeq, "cat": CatNet, "cat2": CatNet2}.get(variant, MpsCnn)()
             _randomize(net, gen)
             net.train(train)
-            wt = MPSType.PER_LAYER if variant in ("layer", "seq", "cat") else MPSType.PER_CHANNEL
+            wt = MPSType.PER_LAYER if variant in ("layer", "seq", "cat", "cat2") else MPSType.PER_CHANNEL
             wp = (0, 2, 4, 8) if variant.endswith("0") else (2, 4, 8)
             kw = {}
             if "temp" in init:       # constructor temperature as given (int or float: the TYPE matters)
@@ -1108,69 +1108,81 @@ def apply_c17(kind: str, m, act: Dict[str, Any], gen: torch.Generator, shape) ->
     return ""
 
 
-def _observe_pair(kind: str, o, r, x: torch.Tensor, ids: Ids, mode: bool, seed: int) -> Dict[str, Any]:
-    """the usual forward pass on both models in the given mode, then outputs / costs / summary of both"""
-    res: Dict[str, Any] = {"mode": bool(mode), "err_o": "", "err_r": ""}
-    vals = {}
-    for tag, m in (("o", o), ("r", r)):
-        try:
-            m.train(mode)
-            torch.manual_seed(seed)
-            y = m(x)
-            cl, ex = ids.out(y)
-            vals[tag] = {"out": cl, "outx": ex, "fin": bool(torch.isfinite(y).all()),
-                         "cost": ids.of("cost", json.dumps([v.hex() if math.isfinite(v) else str(v) for v in cost_values(m)])),
-                         "sum": ids.of("sum", json.dumps(jsonable(m.summary())))}
-        except MachineryError:
-            raise
-        except Exception as ex_:
-            res["err_" + tag] = f"{type(ex_).__name__}: {str(ex_)[:160]}"
-            vals[tag] = {"out": 0, "outx": 0, "fin": False, "cost": 0, "sum": 0}
-    res.update({"o": vals["o"], "r": vals["r"]})
-    return res
+def _observe_one(kind: str, m, x: torch.Tensor, mode: bool, seed: int) -> Dict[str, Any]:
+    """the usual forward pass in the given mode with the global random stream seeded immediately before, then output /
+    every cost / summary - as raw values (tensor, exact strings)"""
+    try:
+        m.train(mode)
+        torch.manual_seed(seed)
+        y = m(x)
+        return {"err": "", "y": y.detach().clone(), "fin": bool(torch.isfinite(y).all()),
+                "cost": json.dumps([v.hex() if math.isfinite(v) else str(v) for v in cost_values(m)]),
+                "sum": json.dumps(jsonable(m.summary()))}
+    except MachineryError:
+        raise
+    except Exception as ex_:
+        return {"err": f"{type(ex_).__name__}: {str(ex_)[:160]}", "y": None, "fin": False, "cost": "", "sum": ""}
 
 
-def _export_pair(o, r, x: torch.Tensor, ids: Ids) -> Dict[str, Any]:
-    res: Dict[str, Any] = {"err_o": "", "err_r": ""}
-    none = {"struct": 0, "sd": 0, "out": 0}
-    for tag, m in (("o", o), ("r", r)):
-        try:
-            rng = torch.get_rng_state()
-            e = m.export()
-            torch.set_rng_state(rng)
-            f = export_fingerprint(e, x, ids)
-            res[tag] = {"struct": f["struct"], "sd": f["sd"], "out": f["out"]}
-            m.train(m.training)
-        except MachineryError:
-            raise
-        except Exception as ex_:
-            res["err_" + tag] = f"{type(ex_).__name__}: {str(ex_)[:160]}"
-            res[tag] = dict(none)
-    return res
+def _export_one(m, x: torch.Tensor) -> Dict[str, Any]:
+    try:
+        rng = torch.get_rng_state()
+        e = m.export()
+        torch.set_rng_state(rng)
+        struct = []
+        for n, mod in e.named_modules():
+            if n == "":
+                continue
+            hp = {k: jsonable(getattr(mod, k)) for k in ("in_channels", "out_channels", "kernel_size", "stride", "padding",
+                                                          "dilation", "groups", "in_features", "out_features",
+                                                          "num_features", "precision") if hasattr(mod, k)}
+            struct.append([n, type(mod).__name__, hp])
+        e2 = safe_deepcopy(e)[0]
+        e2.eval()
+        with torch.no_grad():
+            y = e2(x)
+        torch.set_rng_state(rng)
+        m.train(m.training)
+        return {"err": "", "struct": json.dumps(struct) + getattr(e, "code", ""), "sd": _hash_items(e.state_dict().items()),
+                "y": y.detach().clone()}
+    except MachineryError:
+        raise
+    except Exception as ex_:
+        return {"err": f"{type(ex_).__name__}: {str(ex_)[:160]}", "struct": "", "sd": "", "y": None}
 
 
-def checkpoint_test(kind: str, orig, sc: Dict[str, Any], hist: List[Dict[str, Any]], ck: Dict[str, Any],
-                    x: torch.Tensor, ids: Ids) -> Dict[str, Any]:
-    """Save orig's state_dict (through torch.save / torch.load), build a fresh wrapper of the same seed network with the
-    same constructor arguments, re-apply the configuration calls of the history, load, and compare the two models."""
-    import io
-    buf = io.BytesIO()
-    torch.save(orig.state_dict(), buf)
-    buf.seek(0)
-    ckpt = torch.load(buf, weights_only=True)
-    g_o = _groups_of(orig)
+def observe_side(kind: str, m, x: torch.Tensor, cur: bool) -> Dict[str, Any]:
+    """all observations of one model: current mode first, then the other mode, then the exported network"""
+    obs = [_observe_one(kind, m, x, md, 4242) for md in (cur, not cur)]
+    m.train(cur)
+    return {"obs": obs, "exp": _export_one(m, x)}
+
+
+OTHER = {"pit": [("pit", "flat"), ("pit", "cat2"), ("mps", "seq")], "mps": [("mps", "seq"), ("pit", "cat"), ("mps", "cat2")],
+         "sn": [("pit", "cat"), ("sn", "std"), ("mps", "seq")]}
+
+
+def resume_side(job: Dict[str, Any]) -> Dict[str, Any]:
+    """Build the wrapper the checkpoint is resumed into - after `pre` wrappers of OTHER architectures have been constructed
+    in this process (state_dict keys must not depend on how many objects were built before) - re-apply the configuration
+    calls, load, observe.  Runs in the process of the original or, through resume_child(), in a fresh process."""
+    kind, sc, cfg, ck = job["kind"], job["sc"], job["cfg"], job["ck"]
+    x, cur = job["x"], job["cur"]
+    ckpt = torch.load(job["ckpt_file"], weights_only=True)
+    g_o = job["groups"]
+    for i in range(int(ck.get("pre", 0))):
+        k2, v2 = [o for o in OTHER[kind] if o != (kind, sc["variant"])][i % 2]
+        build(k2, v2, {"train": True}, 77 + i)
     fresh, _ = build(kind, sc["variant"], sc["init"], int(sc.get("wseed", 0)))
     shape = tuple(x.shape[1:])
-    cfg = [a for a in hist if is_config_call(kind, a)]
-    res: Dict[str, Any] = {"cfg_first": bool(ck.get("cfg_first", True)), "warm": bool(ck.get("warm", False)),
-                           "copy": bool(ck.get("copy", False)), "err": ""}
+    res: Dict[str, Any] = {"err": ""}
     gen = torch.Generator().manual_seed(31337)
-    if res["warm"]:
+    if ck.get("warm", False):
         # a wrapper that has already been used for a sanity batch (forward, cost, summary) before the checkpoint is loaded
         fresh(torch.randn((4,) + shape, generator=gen))
         cost_values(fresh)
         fresh.summary()
-    if res["cfg_first"]:
+    if ck.get("cfg_first", True):
         for a in cfg:
             e = apply_c17(kind, fresh, a, gen, shape)
             if e:
@@ -1189,7 +1201,16 @@ def checkpoint_test(kind: str, orig, sc: Dict[str, Any], hist: List[Dict[str, An
     except Exception as ex:
         res["missing"], res["unexpected"] = [], []
         res["err"] = res["err"] or f"load_state_dict: {type(ex).__name__}: {str(ex)[:200]}"
-    if not res["cfg_first"]:
+    # the default strict load must succeed as well
+    res["strict_ok"] = True
+    if not res["err"]:
+        try:
+            probe, _ = build(kind, sc["variant"], sc["init"], int(sc.get("wseed", 0)))
+            probe.load_state_dict(ckpt)
+        except Exception as ex:
+            res["strict_ok"] = False
+            res["strict_err"] = f"{type(ex).__name__}: {str(ex)[:200]}"
+    if not ck.get("cfg_first", True):
         for a in cfg:
             e = apply_c17(kind, fresh, a, gen, shape)
             if e:
@@ -1199,13 +1220,74 @@ def checkpoint_test(kind: str, orig, sc: Dict[str, Any], hist: List[Dict[str, An
     bad = [k for k, v in ckpt.items() if k not in sd_r or not _tensor_same(sd_r[k].detach(), v)]
     res["sd_equal"] = not bad
     res["sd_diff"] = [f"{k}[{g_o.get(k, '?')}]" for k in bad[:4]]
-    # observations: current mode first, then the other mode; then the exported networks
+    res.update(observe_side(kind, fresh, x, cur))
+    res["final_sd"] = {k: v.detach().clone() for k, v in fresh.state_dict().items()}
+    return res
+
+
+def resume_child(job: Dict[str, Any]) -> Dict[str, Any]:
+    """resume_side in a FRESH python process (job and result travel through torch.save files)"""
+    import subprocess
+    import sys
+    import tempfile
+    from . import tlc as _tlc
+    d = tempfile.mkdtemp(prefix="c17-child-", dir=_tlc.scratch())
+    jf, rf = d + "/job.pt", d + "/res.pt"
+    torch.save(job, jf)
+    code = ("import sys, torch; from harness.core import use_repo; use_repo(); from harness import ckobs; "
+            "torch.set_num_threads(1); job = torch.load(sys.argv[1], weights_only=False); "
+            "torch.save(ckobs.resume_side(job), sys.argv[2])")
+    import os
+    root = str(__import__("pathlib").Path(__file__).resolve().parent.parent)
+    env = dict(os.environ, PYTHONPATH=os.pathsep.join([root] + [p for p in os.environ.get("PYTHONPATH", "").split(os.pathsep) if p]))
+    pr = subprocess.run([sys.executable, "-c", code, jf, rf], capture_output=True, text=True, timeout=600, env=env, cwd=root)
+    if pr.returncode != 0 or not os.path.exists(rf):
+        raise MachineryError("C17 child process failed:\n" + (pr.stderr or pr.stdout)[-2000:])
+    res = torch.load(rf, weights_only=False)
+    for f in (jf, rf):
+        os.unlink(f)
+    return res
+
+
+def checkpoint_test(kind: str, orig, sc: Dict[str, Any], hist: List[Dict[str, Any]], ck: Dict[str, Any],
+                    x: torch.Tensor, ids: Ids) -> Dict[str, Any]:
+    """Save orig's state_dict (torch.save to a file), build a fresh wrapper of the same seed network with the same
+    constructor arguments (in this process after ck["pre"] other wrappers, or in a fresh process: ck["child"]), re-apply the
+    configuration calls of the history, load (torch.load), and compare the two models."""
+    import os
+    import tempfile
+    from . import tlc as _tlc
+    fd, ckpt_file = tempfile.mkstemp(prefix="c17-ckpt-", suffix=".pt", dir=_tlc.scratch())
+    os.close(fd)
+    torch.save(orig.state_dict(), ckpt_file)
     cur = bool(orig.training)
-    res["obs"] = [_observe_pair(kind, orig, fresh, x, ids, md, 4242) for md in (cur, not cur)]
-    orig.train(cur)
-    fresh.train(cur)
-    res["exp"] = _export_pair(orig, fresh, x, ids)
-    sd_o, sd_r = orig.state_dict(), fresh.state_dict()
+    job = {"kind": kind, "sc": {k: sc[k] for k in ("variant", "init", "wseed") if k in sc}, "ck": dict(ck),
+           "cfg": [a for a in hist if is_config_call(kind, a)], "x": x, "cur": cur, "ckpt_file": ckpt_file,
+           "groups": _groups_of(orig)}
+    r = resume_child(job) if ck.get("child", False) else resume_side(job)
+    os.unlink(ckpt_file)
+    o = observe_side(kind, orig, x, cur)
+    res: Dict[str, Any] = {"cfg_first": bool(ck.get("cfg_first", True)), "warm": bool(ck.get("warm", False)),
+                           "copy": bool(ck.get("copy", False)), "pre_built": int(ck.get("pre", 0)),
+                           "child": bool(ck.get("child", False)), "err": r["err"],
+                           "keys_equal": r["keys_equal"], "pre": r["pre"], "missing": r["missing"], "unexpected": r["unexpected"],
+                           "strict_ok": bool(r["strict_ok"]), "sd_equal": r["sd_equal"], "sd_diff": r["sd_diff"]}
+
+    def ob(v):
+        if v["err"] or v["y"] is None:
+            return {"out": 0, "outx": 0, "fin": False, "cost": 0, "sum": 0}
+        cl, ex = ids.out(v["y"])
+        return {"out": cl, "outx": ex, "fin": v["fin"], "cost": ids.of("cost", v["cost"]), "sum": ids.of("sum", v["sum"])}
+
+    res["obs"] = [{"mode": md, "err_o": vo["err"], "err_r": vr["err"], "o": ob(vo), "r": ob(vr)}
+                  for md, vo, vr in zip((cur, not cur), o["obs"], r["obs"])]
+
+    def ex(v):
+        if v["err"] or v["y"] is None:
+            return {"struct": 0, "sd": 0, "out": 0}
+        return {"struct": ids.of("xstruct", v["struct"]), "sd": ids.of("xsd", v["sd"]), "out": ids.out(v["y"])[0]}
+    res["exp"] = {"err_o": o["exp"]["err"], "err_r": r["exp"]["err"], "o": ex(o["exp"]), "r": ex(r["exp"])}
+    sd_o, sd_r = orig.state_dict(), r["final_sd"]
     res["final_sd_equal"] = list(sd_o.keys()) == list(sd_r.keys()) and \
         all(_tensor_same(sd_o[k].detach(), sd_r[k].detach()) for k in sd_o)
     return res
@@ -1246,7 +1328,8 @@ def run_c17(sc: Dict[str, Any]) -> Dict[str, Any]:
         ev.append({"act": dict({"g": "-", "o": "-", "v": 0}, **{k: (int(v) if isinstance(v, bool) else v) for k, v in act.items()}),
                    "replayed": is_config_call(kind, act), "err": err, "g": group_ids(m, ids), "ck": None})
         do_cks(i)
-    nock = {"cfg_first": True, "warm": False, "copy": False, "err": "", "keys_equal": True,
+    nock = {"cfg_first": True, "warm": False, "copy": False, "pre_built": 0, "child": False, "strict_ok": True, "err": "",
+            "keys_equal": True,
             "pre": {g: True for g in GROUPS}, "missing": [], "unexpected": [], "sd_equal": True, "sd_diff": [],
             "obs": [], "exp": {"err_o": "", "err_r": "", "o": {"struct": 0, "sd": 0, "out": 0}, "r": {"struct": 0, "sd": 0, "out": 0}},
             "final_sd_equal": True}
